@@ -53,6 +53,7 @@ type Ctx struct {
 	known     []KnownFinding
 	Params    map[string]string // world parameters (tier, campaign)
 	Scratch   string            // scratch directory for this run (on /dev/shm)
+	once      map[string]bool
 	unordered []string
 	PreLog    []func() // run before every ordered log line: worlds emit pending net effects through LogUnordered
 }
@@ -102,6 +103,18 @@ func (c *Ctx) logLine(s string) {
 
 // LogHash is the hash of the canonical event log so far.
 func (c *Ctx) LogHash() uint64 { c.flushUnordered(); return c.h.Sum64() }
+
+// Once reports true the first time it is called with this string in this run.
+func (c *Ctx) Once(s string) bool {
+	if c.once == nil {
+		c.once = map[string]bool{}
+	}
+	if c.once[s] {
+		return false
+	}
+	c.once[s] = true
+	return true
+}
 
 // Fault counts one injected fault that actually fired.
 func (c *Ctx) Fault(kind string) { c.Stats.Faults[kind]++ }
